@@ -115,8 +115,11 @@ class Result:
             out.append(e)
         return out
 
-    def of_kind(self, *kinds) -> List[Event]:
-        return [e for e in self.events if e.kind in kinds]
+    def of_kind(self, *kinds, all_depths: bool = False) -> List[Event]:
+        """events of the given kinds; `return` events of inlined callees are
+        not returns of the analysed function and are left out"""
+        return [e for e in self.events if e.kind in kinds and
+                (all_depths or e.kind != "return" or e.depth == 0)]
 
 
 _MENTIONED: Optional[set] = None
@@ -159,6 +162,7 @@ class Interp:
                  inline_closures: bool = True,
                  unique_method_fallback: bool = True,
                  auto_inline: bool = True):
+        self._narrow = []
         self.prog = prog
         self._explicit_inline = inline
         self.auto_inline = auto_inline
@@ -201,6 +205,7 @@ class Interp:
             self_cls: Optional[Class] = None,
             preset_attrs: Optional[Dict[Tuple[T, str], T]] = None) -> Result:
         self.events = []
+        self._narrow = []
         self.attrs = dict(preset_attrs or {})
         frame = self._make_frame(fn, args or {}, self_cls, depth=0)
         self.stack.append(fn.qualname)
@@ -280,7 +285,15 @@ class Interp:
             self.stats["unsupported"] += 1
             self.emit("unsupported", s, live, frame, what=type(s).__name__)
             return live
-        return m(s, frame, live)
+        n0 = len(self._narrow)
+        out = m(s, frame, live)
+        if len(self._narrow) > n0:
+            # an inlined callee raised / exited on some of its paths: only
+            # the paths on which it returned continue after this statement
+            for c in self._narrow[n0:]:
+                out = tm.mk_and(out, c)
+            del self._narrow[n0:]
+        return out
 
     def st_Pass(self, s, frame, live):
         return live
@@ -670,6 +683,10 @@ class Interp:
     def st_For(self, s, frame, live):
         it = self.eval(s.iter, frame, live)
         itu = self.unname(it)
+        lit = literal_items(itu, self.unname)
+        if lit is not None and itu.op not in ("tuple", "list") and \
+                not is_range_literal(itu):
+            itu = T("tuple", *lit)         # enumerate / zip of literals
         if itu.op in ("tuple", "list") and 0 < len(itu.args) <= 8 and \
                 not any(x.op == "star" for x in itu.args) and \
                 not s.orelse and not any(
@@ -876,7 +893,12 @@ class Interp:
             if isinstance(v, ast.Constant):
                 parts.append(const(v.value))
             elif isinstance(v, ast.FormattedValue):
-                parts.append(self.eval(v.value, frame, live))
+                val = self.eval(v.value, frame, live)
+                if v.conversion != -1 or v.format_spec is not None:
+                    spec = ast.unparse(v.format_spec) \
+                        if v.format_spec is not None else ""
+                    val = T("fmtval", val, const(v.conversion), const(spec))
+                parts.append(val)
         return T("fstr", *parts)
 
     def ev_FormattedValue(self, n, frame, live):
@@ -1326,6 +1348,24 @@ class Interp:
 
     # -------------------------------------------------------- comprehension
     def _comp(self, kind, n, elt_nodes, frame, live):
+        if kind in ("list", "dict") and len(n.generators) == 1 and \
+                not n.generators[0].ifs:
+            # small literal iteration space: the literal it denotes (exact)
+            g = n.generators[0]
+            n0 = len(self.events)
+            it = self.unname(self.eval(g.iter, frame, live))
+            items = literal_items(it, self.unname)
+            if items is not None and 0 < len(items) <= 8:
+                saved_env = dict(frame.env)
+                out = []
+                for x in items:
+                    self.assign(g.target, x, frame, live, n)
+                    vals = [self.eval(e, frame, live) for e in elt_nodes]
+                    out.append(vals[0] if len(vals) == 1 else tuple(vals))
+                frame.env = saved_env
+                return T("list", *out) if kind == "list" else \
+                    T("dict", *out)
+            del self.events[n0:]
         saved_env = dict(frame.env)
         loops = []
         conds = []
@@ -1393,6 +1433,20 @@ class Interp:
     def do_call(self, fn: T, args: List[T], kwargs: List[Tuple[str, T]],
                 node, frame: Frame, live: T) -> T:
         self.stats["calls"] += 1
+        if fn.op == "attr" and fn.args[1] == "format" and not kwargs and \
+                tm.is_const(fn.args[0]) and \
+                isinstance(fn.args[0].args[1], str):
+            # "a{}b{}".format(x, y) is the f-string f"a{x}b{y}"
+            pieces = _plain_fields(fn.args[0].args[1])
+            if pieces is not None and len(pieces) == len(args) + 1 and \
+                    not any(a.op == "star" for a in args):
+                parts: List[T] = []
+                for k, piece in enumerate(pieces):
+                    if piece:
+                        parts.append(const(piece))
+                    if k < len(args):
+                        parts.append(args[k])
+                return T("fstr", *parts)
         recv: Optional[T] = None
         target: Optional[Function] = None
         name: Optional[str] = None
@@ -1559,6 +1613,16 @@ class Interp:
         if fn.op == "attr" and target is None and \
                 fn.args[1] in MUTATING_METHODS:
             new = T("mut", recv, fn.args[1], tuple(args))
+            ru = self.unname(recv)
+            au = self.unname(args[0]) if len(args) == 1 and not kwargs \
+                else None
+            if fn.args[1] == "update" and ru.op == "dict" and \
+                    au is not None and au.op == "dict" and all(
+                        tm.is_const(k) for k, _ in ru.args + au.args):
+                # literal dictionaries: the merged literal (exact)
+                merged = {k: v for k, v in ru.args}
+                merged.update({k: v for k, v in au.args})
+                new = T("dict", *merged.items())
             ev.data["mutates_recv"] = True
             fnode = node.func if isinstance(node, ast.Call) else None
             if fnode is not None and isinstance(fnode, ast.Attribute):
@@ -1625,10 +1689,22 @@ class Interp:
         newf = self._make_frame(target, argenv, self_cls, frame.depth + 1)
         self.stack.append(target.qualname)
         try:
-            self.exec_block(target.node.body, newf, live)
+            out = self.exec_block(target.node.body, newf, live)
         finally:
             self.stack.pop()
+        self._note_narrowing(newf, live, out)
         return self._join_returns(newf, live)
+
+    def _note_narrowing(self, newf: Frame, live: T, out: T) -> None:
+        """condition (relative to the call site) under which the inlined
+        callee comes back at all, when that is not every path"""
+        base = set(self._conj(live))
+        conts = [out] + [l for _, l in newf.returns]
+        rel = tm.mk_or(*[tm.mk_and(*[c for c in self._conj(l)
+                                     if c not in base]) for l in conts
+                         if not tm.is_const(l, False)])
+        if not tm.is_const(rel, True):
+            self._narrow.append(rel)
 
     def inline_closure(self, key, cnode, cframe: Frame, args, kwargs,
                        frame: Frame, live: T) -> T:
@@ -1658,6 +1734,52 @@ class Interp:
         finally:
             self.stack.pop()
         return self._join_returns(newf, live)
+
+
+def _plain_fields(fmt_str: str) -> Optional[List[str]]:
+    """literal pieces around the auto-numbered plain `{}` fields of a format
+    string; None if it uses anything else (specs, names, escapes)"""
+    if "{{" in fmt_str or "}}" in fmt_str:
+        return None
+    pieces = fmt_str.split("{}")
+    if any("{" in p or "}" in p for p in pieces):
+        return None
+    return pieces
+
+
+def literal_items(it: T, unname=lambda v: v) -> Optional[List[T]]:
+    """the items of an iteration space that is known completely: a literal
+    tuple / list, range(consts), enumerate(...) or zip(...) of those"""
+    it = unname(it)
+    if it.op in ("tuple", "list"):
+        if any(x.op == "star" for x in it.args):
+            return None
+        return list(it.args)
+    if is_range_literal(it):
+        return [const(k) for k in range_values(it)]
+    name = tm.callee_name(it) if it.op == "call" else None
+    if name == "builtins.enumerate" and it.args[1]:
+        start = 0
+        extra = list(it.args[1][1:]) + [v for k, v in it.args[2]
+                                        if k == "start"]
+        if len(extra) > 1 or any(k != "start" for k, _ in it.args[2]):
+            return None
+        if extra:
+            if not (tm.is_const(extra[0]) and
+                    isinstance(extra[0].args[1], int)):
+                return None
+            start = extra[0].args[1]
+        inner = literal_items(it.args[1][0], unname)
+        if inner is None:
+            return None
+        return [T("tuple", const(start + k), x)
+                for k, x in enumerate(inner)]
+    if name == "builtins.zip" and it.args[1] and not it.args[2]:
+        cols = [literal_items(a, unname) for a in it.args[1]]
+        if any(c is None for c in cols):
+            return None
+        return [T("tuple", *row) for row in zip(*cols)]
+    return None
 
 
 def is_range_literal(t: T) -> bool:
